@@ -23,6 +23,16 @@ import (
 // Locker is sync.Locker.
 type Locker = sync.Locker
 
+// The rest of package sync passes through unchanged, so that a tree that starts
+// to use it still builds under the overlay: Pool and Map synchronise internally
+// (their operations are atomic for the scheduler and are NOT scheduling points
+// - accesses to the variable that holds them are still Touch points when it is
+// package-level), the Once helpers run their function at most once.
+type Pool = sync.Pool
+type Map = sync.Map
+
+func OnceFunc(f func()) func() { return sync.OnceFunc(f) }
+
 // ---------------------------------------------------------------------------
 // execution state
 
